@@ -5,6 +5,7 @@ package main
 import (
 	"fmt"
 	"go/constant"
+	"go/types"
 	"sort"
 	"strings"
 
@@ -515,5 +516,160 @@ func (m *Model) RunTextFlow(s *Sink, rule string) {
 		} else {
 			s.Violation(rule, fnKey(sc)+"|a comment ends only at --}}", m.Pos(sc.Pos()), "skipComment can report the comment as terminated without having seen the full terminator --}}: text inside or after a comment is misinterpreted")
 		}
+	}
+}
+
+// RunDirMode: after a directive keyword the lexer enters code mode exactly when the parser will read parentheses there.
+// Lexer side: directiveToken is case-evaluated on an abstract lexer for every directive token D and next character
+// '(' / other (the keyword reader is abstracted: "read D, now at c"), observing the mode flags it leaves.
+// Parser side: the statement parser of D requires "(" (every successful path passes expectPeek(LPAREN)), tests for it
+// (peekTokenIs(LPAREN)), or never looks for it. A bare directive (@end, @else, @break, @continue) followed by "(" must
+// stay in text mode: the parenthesised text belongs to the page.
+func (m *Model) RunDirMode(s *Sink, rule string) {
+	dt := m.Method("lexer", "Lexer", "directiveToken")
+	rd := m.Method("lexer", "Lexer", "readDirective")
+	lexT := m.namedType("lexer", "Lexer")
+	ps := m.Method("parser", "Parser", "parseStatement")
+	if dt == nil || rd == nil || lexT == nil || ps == nil {
+		s.Undecided(rule, "lexer.directiveToken", "-", "directiveToken / readDirective / Lexer / parseStatement not found")
+		return
+	}
+	dirs, prob := m.directiveTable()
+	if prob != "" {
+		s.Undecided(rule, "directives", "-", "%s", prob)
+		return
+	}
+	pm := m.extractPratt()
+	lparen, okLP := pm.tokVal["LPAREN"]
+	if !okLP {
+		s.Undecided(rule, "token.LPAREN", "-", "not found")
+		return
+	}
+	fieldIdx := func(name string) int {
+		st := lexT.Underlying().(*types.Struct)
+		for i := 0; i < st.NumFields(); i++ {
+			if canonFieldName(lexT, i, st.Field(i).Name()) == name {
+				return i
+			}
+		}
+		return -1
+	}
+	fChar, fHTML, fDir := fieldIdx("char"), fieldIdx("isHTML"), fieldIdx("isDirective")
+	if fChar < 0 || fHTML < 0 || fDir < 0 {
+		s.Undecided(rule, "lexer.Lexer fields", "-", "char / isHTML / isDirective not found")
+		return
+	}
+	// parser side
+	var parFns []*ssa.Function
+	for _, fn := range m.ModFns {
+		if fn.Blocks != nil && shortPkg(fnPkgPath(fn)) == "parser" {
+			parFns = append(parFns, fn)
+		}
+	}
+	isExpectLP := func(c *ssa.Call) bool {
+		sc := c.Call.StaticCallee()
+		if sc == nil || m.findExpectLikes(parFns)[sc] == nil || len(c.Call.Args) < 2 {
+			return false
+		}
+		k, ok := c.Call.Args[1].(*ssa.Const)
+		return ok && k.Value != nil && k.Int64() == lparen
+	}
+	ci := m.newPassInfo(func(ssa.CallInstruction) bool { return false }, isExpectLP, parFns, nil)
+	pexpr := m.Method("parser", "Parser", "parseExpression")
+	ciExpr := m.newPassInfo(func(c ssa.CallInstruction) bool { return pexpr != nil && c.Common().StaticCallee() == pexpr }, func(*ssa.Call) bool { return false }, parFns, nil)
+	takes := func(tok int64) string {
+		fn := m.firstParserCall(ps, tok, pm)
+		if fn == nil {
+			// not a statement of its own (@elseif, @else, @end): look at where the parser steps onto it with an expect
+			// function — what must follow on every successful path from there?
+			res := "never"
+			for _, pf := range parFns {
+				for _, b := range pf.Blocks {
+					for _, in := range b.Instrs {
+						c, ok := in.(*ssa.Call)
+						if !ok || c.Call.StaticCallee() == nil || m.findExpectLikes(parFns)[c.Call.StaticCallee()] == nil || len(c.Call.Args) < 2 {
+							continue
+						}
+						k, isK := c.Call.Args[1].(*ssa.Const)
+						if !isK || k.Value == nil || k.Int64() != tok {
+							continue
+						}
+						for _, t := range successTargets(c) {
+							if !ci.pathAvoiding(pf, t, 0, ci.successReturn, nil) || !ciExpr.pathAvoiding(pf, t, 0, ciExpr.successReturn, nil) {
+								res = "always" // "(" is required, or an argument expression is parsed right after the keyword
+							}
+						}
+					}
+				}
+			}
+			return res
+		}
+		if ci.onOK[fn] || ci.always[fn] {
+			return "always"
+		}
+		for _, b := range fn.Blocks {
+			for _, in := range b.Instrs {
+				c, ok := in.(*ssa.Call)
+				if !ok || c.Call.StaticCallee() == nil {
+					continue
+				}
+				ip := m.parserInterp(-1, lparen, pm.precLit, nil)
+				if res, known := ip.EvalValue(c, 0); known && isBoolT(c.Type()) {
+					if rc, isC := res.(constant.Value); isC && constant.BoolVal(rc) {
+						ip2 := m.parserInterp(-1, pm.tokVal["EOF"], pm.precLit, nil)
+						if res2, known2 := ip2.EvalValue(c, 0); known2 {
+							if rc2, isC2 := res2.(constant.Value); isC2 && !constant.BoolVal(rc2) && !isExpectLP(c) {
+								return "optional" // a test that is true for "(" and false otherwise
+							}
+						}
+					}
+				}
+			}
+		}
+		if ci.may[fn] {
+			return "optional"
+		}
+		return "never"
+	}
+	var names []string
+	for k := range dirs {
+		names = append(names, k)
+	}
+	sort.Strings(names)
+	n := 0
+	for _, kw := range names {
+		tok := dirs[kw]
+		want := takes(tok)
+		for _, next := range []byte{'(', 'x'} {
+			lx := &iStruct{typ: lexT, fields: map[int]any{fChar: constant.MakeInt64('@'), fHTML: constant.MakeBool(true), fDir: constant.MakeBool(false)}}
+			ip := &Interp{m: m, useGlobals: true}
+			ip.call = func(c *ssa.Call, args []any) (any, bool) {
+				if c.Call.StaticCallee() == rd {
+					lx.fields[fChar] = constant.MakeInt64(int64(next))
+					return iTuple{constant.MakeInt64(tok), constant.MakeString(kw)}, true
+				}
+				return nil, false
+			}
+			ip.Run(dt, []any{lx})
+			key := fmt.Sprintf("%s|after %s followed by %q the mode matches what the parser reads", fnKey(dt), kw, string(next))
+			n++
+			hv, ok1 := lx.fields[fHTML].(constant.Value)
+			if ip.stuck != "" || !ok1 || hv.Kind() != constant.Bool {
+				s.Undecided(rule, key, m.Pos(dt.Pos()), "directiveToken could not be evaluated for this case (%s)", ip.stuck)
+				continue
+			}
+			code := !constant.BoolVal(hv)
+			wantCode := want == "always" || (want == "optional" && next == '(')
+			if code == wantCode {
+				s.OK(rule, key, m.Pos(dt.Pos()), "parser takes parentheses: %s; lexer enters code mode: %v", want, code)
+			} else if code {
+				s.Violation(rule, key, m.Pos(dt.Pos()), "after the bare directive %s the lexer enters code mode when %q follows, but the parser reads no parentheses there: the following text is tokenised and disappears from the output", kw, string(next))
+			} else {
+				s.Violation(rule, key, m.Pos(dt.Pos()), "after %s followed by %q the lexer stays in text mode, but the parser expects parentheses (%s): the arguments are emitted as text", kw, string(next), want)
+			}
+		}
+	}
+	if n < 20 {
+		s.Undecided(rule, "directive cases", "-", "expected at least 20 (directive, next character) cases, found %d", n)
 	}
 }
